@@ -56,7 +56,7 @@ CLAIMED = {
          'Trusted: TLC, the independent wire decoder, the replayers. Payload bytes are generated content (never inspected by the code under test). Exhaustive within the stated windows only.',
          'DESIGN 6/C03', 'frag'),
  'C04': ('model_checking',
-         'TLC exhaustive check of Parser.tla + replay of every read transition on the real FrameParser / TransportTCP',
+         'TLC exhaustive check of Parser.tla + replay of every read transition on the real FrameParser / TransportTCP; Transport.tla (message sequences x endings) replayed on every message transport class',
          'Parser.tla models the decoder loop at the real byte scale; TLC checks for twelve streams (valid, zero-length, shorter-than-header and unknown-type frames) and every chunking '
          'that exactly the frames wholly received have been emitted, in order. Every transition of the complete graph is replayed on the real FrameParser reached by one read, byte by byte '
          'and by a random path, the streams also go through TransportTCP over a real StreamReader with read sizes 1,2,3,7,1024 and through the message path (including the empty message); '
@@ -68,7 +68,7 @@ CLAIMED = {
    'Cut family: 0-4 pending interactions in both roles, then the TCP link is cut at an arbitrary byte offset (mid-frame and mid-fragment included), by orderly EOF or by a connection reset, or an endpoint calls close(); several keep-alive periods of virtual time pass. Clauses: every pending requester failed, every responder-side producer cancelled, on_close exactly once per connection, no frame and no keep-alive after the close notification.',
    CONN_NOTE, 'DESIGN 6/C11', 'conn'),
  'C12': ('model_checking',
-   'TLC-checked decision table Dispatch.tla (stream state x frame kind x stream id: containment, duplicate rejection) with every row replayed on both real endpoints; TLC trace validation of recorded executions of the real endpoints (hostile families) against RSocket.tla (+ design-level TLC model checking of the same monitors)',
+   'TLC-checked tables Transport.tla (message transports: message sequences x endings, every row replayed on every transport class) and Dispatch.tla (stream state x frame kind x stream id: containment, duplicate rejection) with every row replayed on both real endpoints; TLC trace validation of recorded executions of the real endpoints (hostile families) against RSocket.tla (+ design-level TLC model checking of the same monitors)',
    'Hostile family: twenty classes of junk frames built by an independent encoder are injected towards either endpoint, and interactions run whose application code raises at every entry point (handler methods, publisher subscribe/request/cancel, subscriber callbacks, failing futures, raising generators); a witness stream must still complete with all its payloads, a probe request must be served, both tasks stay alive, the connection is not closed, every run terminates under a watchdog.',
    CONN_NOTE, 'DESIGN 6/C12', 'conn'),
  'C14': ('model_checking',
@@ -156,8 +156,8 @@ def main():
              'kind_free_text': 'wire layouts transcribed into TLA+; value domains enumerated by TLC; every value replayed on the real codec'},
             {'name': 'routing', 'path': 'spec/Routing.tla + vf/props/c19.py', 'serves_properties': ['C19'],
              'kind_free_text': 'decision function in TLA+, invariants by TLC, full decision table replayed on the real router and handler'},
-            {'name': 'components', 'path': 'spec/Mux.tla Lease.tla KeepAlive.tla Lifecycle.tla Source.tla Demand.tla Dispatch.tla + vf/props/{mux,leasemodel,kamodel,lifecycle,sourcemodel,demandmodel,dispatch,graphreplay}.py',
-             'serves_properties': ['C05', 'C06', 'C09', 'C11', 'C12', 'C13', 'C14', 'C15', 'C17', 'C20'],
+            {'name': 'components', 'path': 'spec/Mux.tla Lease.tla KeepAlive.tla Lifecycle.tla ServerLifecycle.tla Source.tla Demand.tla Dispatch.tla Setup.tla Transport.tla + vf/props/{mux,leasemodel,kamodel,lifecycle,sourcemodel,demandmodel,dispatch,setupmodel,transportmodel,graphreplay}.py',
+             'serves_properties': ['C04', 'C05', 'C06', 'C09', 'C11', 'C12', 'C13', 'C14', 'C15', 'C16', 'C17', 'C20'],
              'kind_free_text': 'implementation-shaped TLA+ component specs, TLC exhaustive; every transition / row replayed on the real objects (oracle on the real observations, state mismatch = drift)'},
             {'name': 'conn', 'path': 'spec/RSocket.tla + spec/RSocketTrace.tla + vf/harness + vf/props/conn.py',
              'serves_properties': [p for p in PROPS if p in CLAIMED and CLAIMED[p][5] == 'conn'],
